@@ -13,7 +13,10 @@ RULE = ("class chains and well-formed call shapes of C01; for each, the complete
         "Exception branch (args of auto_exc classes), definition histories (decoy, sibling and warm-up classes; decorator "
         "objects, and_() validator composites and attr.ib() objects shared between fields and classes and decorated further "
         "with `@x.validator` by one of them), `@x.validator` / `@x.default` spellings, argument objects with unusual special "
-        "methods, multiple inheritance with a plain mixin, equal-comparing twin chains; converter CHAINS (list / pipe of 2-3 "
+        "methods, hostile-but-valid callable objects as factory / converter / validator (a FALSY single validator is left out: "
+        "the unchanged attrs silently never runs it -- reported), post-init hooks that re-store init fields as new equal objects or "
+        "call BaseException.__init__ themselves, with `args` compared AFTER construction element by element against the objects "
+        "the fields hold (`not-stored:` marks a stale element), multiple inheritance with a plain mixin, equal-comparing twin chains; converter CHAINS (list / pipe of 2-3 "
         "plain and Converter members) are modelled member by member, so the single-fault enumeration also fails every member "
         "of every chain in turn. Non-trivial = expected trace has >= 3 events or a fault is injected; "
         "distinct = distinct (class spec, call, fault, switch)")
@@ -38,7 +41,7 @@ def make_case(hspec, call, fault, enabled):
 def gen_cases(tier, rng):
     n_classes = 1500 if tier == "quick" else 40000
     for _ in range(n_classes):
-        h = ib.gen_hspec(rng, pipes=c01.PIPES)
+        h = ib.gen_hspec(rng, pipes=c01.PIPES, post_modes=c01.POST_MODES, dflt_objs=True)
         try:
             ib.build(h)
         except Exception as e:  # noqa: BLE001
@@ -69,6 +72,9 @@ def defines(case):
 def observe(case):
     if "__gen_error__" in case:
         raise RuntimeError("class spec did not define: " + case["__gen_error__"])
+    bad = c01.definition_failure(case["hspec"])
+    if bad is not None:
+        return bad
     _, obs = ib.construct(case["hspec"], case["call"], case.get("fault"), case["hspec"].get("validators_enabled", True))
     obs["cache"] = None
     return obs
